@@ -27,6 +27,7 @@ type TextCfg struct {
 	Printable bool // restrict to the printable domain of C15 (no parameters, no string sets, canonical literals)
 	MaxDepth  int
 	HexString bool // allow string literals that start with "hex:"
+	DupSets   bool // set literals may repeat an element (C15: the printer must keep what was written)
 }
 
 type TextGen struct {
@@ -130,6 +131,11 @@ func (g *TextGen) literal(t *rapid.T, allowSet bool) m.Term {
 			if !dup {
 				es = append(es, e)
 			}
+		}
+		if g.Cfg.DupSets && rapid.IntRange(0, 3).Draw(t, "lit.setdup") == 3 {
+			// the same element written twice: still one set for the generator's structure, but
+			// the printer must not change how many times it is written
+			es = append(es, es[rapid.IntRange(0, len(es)-1).Draw(t, "lit.setdupi")])
 		}
 		return m.Term{K: m.KSet, Set: es} // order as written; compared as a set
 	default:
